@@ -12,7 +12,7 @@ from mc import ref
 from mc import universe as U
 from mc.choice import ChoiceRNG, deviations
 from mc import choice as choice_engine
-from mc.budget import time_limit, WallTimeout, budgeted
+from mc.budget import run_limited, budgeted
 
 ID = "C18"
 LEVEL = "model_checking"
@@ -281,23 +281,20 @@ def check_execution(cfg, ctx, prefix=None, seed=None):
         rng, res = one_execution(cfg, prefix, seed)
         rngbox.append(rng)
         return res
-    try:
-        with time_limit(10.0):
-            try:
-                res = go()
-            except WallTimeout:
-                raise
-            except StrayGlobalRNG as e:
-                ctx.violation("%s|stray-global-rng" % name, str(e), case)
-                return None
-            except Exception as e:
-                ctx.violation("%s|exception|%s" % (name, type(e).__name__), "%r raised %s: %s" % (cfg, type(e).__name__, str(e)[:200]), case)
-                return None
-    except WallTimeout:
+    st, val = run_limited(go, 10.0)
+    if st == "exc":
+        e = val
+        if isinstance(e, StrayGlobalRNG):
+            ctx.violation("%s|stray-global-rng" % name, str(e), case)
+        else:
+            ctx.violation("%s|exception|%s" % (name, type(e).__name__), "%r raised %s: %s" % (cfg, type(e).__name__, str(e)[:200]), case)
+        return None
+    if st == "timeout":
         st, v, n = budgeted(lambda: one_execution(cfg, prefix, seed), 3000000)
         if st == "hang":
             ctx.violation("%s|hang" % name, "does not terminate under answers %r (last in %s)" % (prefix if prefix is not None else seed, v), case)
         return None
+    res = val
     rng = rngbox[0]
     for detail, msg in check_result(cfg, res):
         ctx.violation("%s|%s" % (name, detail), msg, case)
